@@ -33,6 +33,12 @@ class Gen:
         self.accs = accs or (ACCS if rng.random() < 0.4 else ACCS[:1])
         self.launch_vals = launch_vals
         self.prethread = prethread
+        self.sticky = 0.0  # probability that a setup re-uses an earlier configuration of its accelerator (0 or 1 field changed)
+        self.focus = False  # nested control flow often drives only one of the accelerators
+        self.scope_accs = [self.accs]
+        self.cfg_hist = {}
+        self.force_scope = None
+        self.focus_acc = None
 
     def loop_bounds(self):
         """(lb, ub, step) SSA names: function arguments (run-time trip counts) or index constants, including empty
@@ -48,11 +54,23 @@ class Gen:
         return f"%{p}{self.n}"
 
     def setup_launch(self, vals, ind, cur):
-        acc = self.r.choice(self.accs)
+        acc = self.r.choice(self.scope_accs[-1])
         fields = FIELDS[acc]
         fs = fields if self.full else self.r.sample(fields, self.r.randint(1, len(fields)))
         s, t = self.fresh("s"), self.fresh("t")
-        params = ", ".join(f'"{f}" = {self.r.choice(vals)} : i32' for f in fs)
+        chosen = {f: self.r.choice(vals) for f in fs}
+        if self.sticky:
+            # redundancy-heavy programs: re-use an earlier configuration of this accelerator (values still in scope), change <= 1 field
+            hist_c = self.cfg_hist.setdefault(acc, [])
+            if hist_c and self.r.random() < self.sticky:
+                old = self.r.choice(hist_c)
+                keep = {f: (old[f] if f in old and old[f] in vals else chosen[f]) for f in fs}
+                if self.r.random() < 0.5:
+                    f = self.r.choice(fs)
+                    keep[f] = chosen[f]
+                chosen = keep
+            hist_c.append(dict(chosen))
+        params = ", ".join(f'"{f}" = {chosen[f]} : i32' for f in fs)
         frm = ""
         hist = cur.setdefault("_hist_" + acc, [])
         if self.prethread and hist and self.r.random() < 0.6:
@@ -80,12 +98,49 @@ class Gen:
         return out
 
     def block(self, vals, depth, ind, nst, cur):
+        if self.force_scope is not None:
+            self.scope_accs.append(self.force_scope)
+            try:
+                return self._block(vals, depth, ind, nst, cur)
+            finally:
+                self.scope_accs.pop()
+        if self.focus and len(self.accs) > 1 and depth < self.depth and self.r.random() < 0.6:
+            # this nested block drives a single accelerator only
+            self.scope_accs.append([self.r.choice(self.accs)])
+            try:
+                return self._block(vals, depth, ind, nst, cur)
+            finally:
+                self.scope_accs.pop()
+        return self._block(vals, depth, ind, nst, cur)
+
+    def _block(self, vals, depth, ind, nst, cur):
         out = []
         vals = list(vals)
         for _ in range(nst):
             k = self.r.random()
+            if self.focus_acc is not None and depth == self.depth:
+                self.force_scope = None
+                # top level of a focused program: setup/launch pairs of the focus accelerator X separated by conditionals / loops
+                # that drive only X or only the other accelerators
+                u, x = self.r.random(), self.focus_acc
+                others = [a for a in self.accs if a != x] or [x]
+                if u < 0.45:
+                    k, self.force_scope = 0.1, [x]
+                elif u < 0.65:
+                    k, self.force_scope = 0.7, [x]
+                elif u < 0.85:
+                    k, self.force_scope = 0.7, others
+                elif u < 0.95:
+                    k, self.force_scope = 0.9, self.r.choice([[x], others, self.accs])
+                else:
+                    k = 0.5
             if k < 0.42:
-                out += self.setup_launch(vals, ind, cur)
+                if self.force_scope is not None:
+                    self.scope_accs.append(self.force_scope)
+                    out += self.setup_launch(vals, ind, cur)
+                    self.scope_accs.pop()
+                else:
+                    out += self.setup_launch(vals, ind, cur)
             elif k < 0.54:
                 v = self.fresh()
                 a, b = self.r.choice(vals), self.r.choice(vals)
@@ -153,6 +208,8 @@ class Gen:
                     out.append(f"{ind}}}")
                 for _k in [k for k in cur if not k.startswith('_hist_')]:
                     del cur[_k]
+            if depth == self.depth:
+                self.force_scope = None
         return out
 
     def effect_nest(self, ind, depth):
@@ -172,7 +229,9 @@ class Gen:
 
     def program(self):
         args = [f"%x{i}" for i in range(NARGS)]
-        body = self.block(args, self.depth, "  ", self.r.randint(2, 5), {})
+        if self.focus and len(self.accs) > 1:
+            self.focus_acc = self.r.choice(self.accs)
+        body = self.block(args, self.depth, "  ", self.r.randint(3, 8) if self.focus else self.r.randint(2, 5), {})
         sig = ", ".join([f"%x{i} : i32" for i in range(NARGS)] + ["%c0 : i1", "%c1 : i1"]
                         + [f"%{n}{b} : index" for b in range(NBOUNDS) for n in ("lb", "ub", "st")])
         return ("func.func private @g() -> ()\n"
